@@ -7,6 +7,9 @@ package sched
 
 import (
 	"hash/fnv"
+	"os"
+	"strconv"
+	"strings"
 	"sync"
 	"time"
 
@@ -116,15 +119,30 @@ func Seen() map[string]int {
 //
 //	0 none; 1 random delays; 2 single hold (point and passage drawn from the seed);
 //	9 mixed: run index decides among the three.
-func ForRun(class int, seed int64, run int) Policy {
+func ForRun(class int, seed int64, run int, points []string) Policy {
+	if len(points) == 0 {
+		points = Points
+	}
+	// VERIF_HOLD=point:k[:us] forces a single-hold policy (experiments, replays)
+	if v := os.Getenv("VERIF_HOLD"); v != "" {
+		parts := strings.Split(v, ":")
+		p := Policy{Mode: 2, HoldPoint: parts[0], HoldK: 1, HoldUs: 5000}
+		if len(parts) > 1 {
+			p.HoldK, _ = strconv.Atoi(parts[1])
+		}
+		if len(parts) > 2 {
+			p.HoldUs, _ = strconv.Atoi(parts[2])
+		}
+		return p
+	}
 	x := h64(seed, "policy", run)
 	switch class {
 	case 1:
 		return Policy{Mode: 1, Seed: seed + int64(run), P: 0.12, MaxUs: 1200}
 	case 2:
-		return Policy{Mode: 2, Seed: seed, HoldPoint: Points[x%uint64(len(Points))], HoldK: 1 + int((x>>16)%4), HoldUs: 4000}
+		return Policy{Mode: 2, Seed: seed, HoldPoint: points[x%uint64(len(points))], HoldK: 1 + int((x>>16)%3), HoldUs: 4000}
 	case 9:
-		return ForRun(int(x>>40)%3, seed, run)
+		return ForRun(int(x>>40)%3, seed, run, points)
 	}
 	return Policy{}
 }
